@@ -6,6 +6,7 @@ namespace Driver.Drv.Ban
 /-
 Trace lines (harness/bandrv):
   ban    <via> <iphex> <maskhex> <port> <reason> <durMs> <t0> <t1> => ok | errparse | errencode
+  reban  … as ban …   a ban that committed while a Status call for the same network was in flight (concurrent.go)
   status <via> <iphex> <maskhex> <port> <t0> <t1>                  => banned <reason> <expirySec> | notbanned | errparse | errencode
   unban  <via> <iphex> <maskhex> <port> <t0> <t1>                  => ok | errparse | errencode
   reopen                                                            => ok
@@ -77,16 +78,20 @@ structure Parsed where
   op : Op
   t0 : Int
   t1 : Int
+  /-- a ban that committed while a Status of the same network was in flight (`reban` line) -/
+  reban : Bool := false
 
 def parseLine (ws : List String) : Option Parsed :=
   match ws with
   | ["ban", via, ip, mask, port, r, d, t0, t1] =>
-    (parseTarget via ip mask port).map fun tg => ⟨.ban tg (nat! r) (int! d), int! t0, int! t1⟩
+    (parseTarget via ip mask port).map fun tg => ⟨.ban tg (nat! r) (int! d), int! t0, int! t1, false⟩
+  | ["reban", via, ip, mask, port, r, d, t0, t1] =>
+    (parseTarget via ip mask port).map fun tg => ⟨.ban tg (nat! r) (int! d), int! t0, int! t1, true⟩
   | ["status", via, ip, mask, port, t0, t1] =>
-    (parseTarget via ip mask port).map fun tg => ⟨.status tg, int! t0, int! t1⟩
+    (parseTarget via ip mask port).map fun tg => ⟨.status tg, int! t0, int! t1, false⟩
   | ["unban", via, ip, mask, port, t0, t1] =>
-    (parseTarget via ip mask port).map fun tg => ⟨.unban tg, int! t0, int! t1⟩
-  | ["reopen"] => some ⟨.reopen, 0, 0⟩
+    (parseTarget via ip mask port).map fun tg => ⟨.unban tg, int! t0, int! t1, false⟩
+  | ["reopen"] => some ⟨.reopen, 0, 0, false⟩
   | _ => none
 
 def runCase : CaseFn := fun c => Id.run do
@@ -94,6 +99,7 @@ def runCase : CaseFn := fun c => Id.run do
   -- candidate (model, spec) states: the real call read the clock somewhere inside its window
   let mut cands : List (State × Spec) := [({}, Spec.empty)]
   let mut orc : Oracle := Oracle.empty
+  let mut rebanned : List NetId := []   -- networks whose current ban raced with a Status call
   let mut diverged := false
   for (ln, line) in c.lines do
     let (opS, obs) := splitObs line
@@ -130,7 +136,9 @@ def runCase : CaseFn := fun c => Id.run do
                 let what := match orc id with
                   | some b => s!"banned (reason {b.reason}) until [{b.lo},{b.hi}] ms"
                   | none => "not banned"
-                if truncated (orc id) p.t1 && o == .notBanned then
+                if rebanned.contains id && o == .notBanned && (orc id).isSome && !truncated (orc id) p.t1 then
+                  out := out.push s!"ORACLE-FAIL C13 case {c.num} line {ln}: shape=ban-lost-to-concurrent-status status at [{p.t0},{p.t1}] ms says {obs}; the address was {what} by a ban call that had returned (it committed while another Status of the address was in flight)"
+                else if truncated (orc id) p.t1 && o == .notBanned then
                   out := out.push s!"ORACLE-FAIL C13 case {c.num} line {ln}: shape=expiry-truncated-to-seconds status at [{p.t0},{p.t1}] ms says {obs}; by the history the address is {what}"
                 else
                   out := out.push s!"ORACLE-FAIL C13 case {c.num} line {ln}: status at [{p.t0},{p.t1}] ms says {obs}; by the history the address is {what}"
@@ -141,6 +149,12 @@ def runCase : CaseFn := fun c => Id.run do
             if o != .ok then
               out := out.push s!"ORACLE-FAIL C13 case {c.num} line {ln}: reopen => {obs}"
         orc := orc.note p.t0 p.t1 p.op
+        match p.op with
+        | .ban tg _ _ | .unban tg =>
+          match idOf tg with
+          | some id => rebanned := if p.reban then id :: rebanned else rebanned.filter (· != id)
+          | none => pure ()
+        | _ => pure ()
         -- model and spec(1000) against the implementation
         if !diverged then
           let mut nexts : List ((State × Spec) × Out) := []
